@@ -103,13 +103,13 @@ def build(spec: dict) -> bytes:
         if fmt == "tar.gz":  # gzip with a fixed mtime so that archive bytes are a function of the spec
             import gzip
             raw = io.BytesIO()
-            _write_tar(raw, "w", ms)
+            _write_tar(raw, "w", ms, spec.get("tar_format", "pax"))
             out = io.BytesIO()
             with gzip.GzipFile(fileobj=out, mode="wb", mtime=0) as g:
                 g.write(raw.getvalue())
             return out.getvalue()
         bio = io.BytesIO()
-        _write_tar(bio, mode, ms)
+        _write_tar(bio, mode, ms, spec.get("tar_format", "pax"))
         return bio.getvalue()
     if fmt == "7z":
         o = spec.get("7z", {})
@@ -130,8 +130,11 @@ def build(spec: dict) -> bytes:
     raise ValueError(fmt)
 
 
-def _write_tar(fileobj, mode, ms):
-    with tarfile.open(fileobj=fileobj, mode=mode, format=tarfile.PAX_FORMAT) as t:
+TAR_FORMATS = {"pax": tarfile.PAX_FORMAT, "gnu": tarfile.GNU_FORMAT, "ustar": tarfile.USTAR_FORMAT}
+
+
+def _write_tar(fileobj, mode, ms, tar_format="pax"):
+    with tarfile.open(fileobj=fileobj, mode=mode, format=TAR_FORMATS[tar_format]) as t:
         for m in ms:
             kind = m.get("kind", "file")
             if kind == "ghost":
